@@ -35,6 +35,7 @@ PROPS["C02"] = dict(
         "Zrnt.Proofs.C02.resets_eq",
         "Zrnt.Proofs.C02.historical_eq",
         "Zrnt.Proofs.C02.participation_rotation_eq",
+        "Zrnt.Proofs.C02.syncCommittee_rotation_eq",
         "Zrnt.Proofs.C02.effectiveBalance_snapshot_eq",
     ],
     modes=[dict(name="c02", nontrivial=_nontrivial)],
